@@ -217,7 +217,7 @@ func c10Setup() {
 func c10InputAlias(c *core.Ctx, d c10Decoder, r *core.RNG) {
 	in := d.inputs(r)
 	pre, post := r.Intn(9), r.Intn(20)
-	arena := make([]byte, pre+len(in)+post)
+	arena := bytes.Repeat([]byte{0xC5}, pre+len(in)+post) // a filler no decoder writes by accident (0x00 is what append(x, 0) leaves behind)
 	copy(arena[pre:], in)
 	B := arena[pre : pre+len(in)] // sub-slice with spare capacity
 	v, ref := d.newv(), d.newv()
@@ -229,7 +229,7 @@ func c10InputAlias(c *core.Ctx, d c10Decoder, r *core.RNG) {
 	}
 	core.Guard(func() { e2 = d.dec(ref, append([]byte{}, in...)) })
 	// the buffer stays the caller's, whether the decode succeeded or not
-	if !bytes.Equal(B, in) || !bytes.Equal(arena[:pre], make([]byte, pre)) || !bytes.Equal(arena[pre+len(in):], make([]byte, post)) {
+	if !bytes.Equal(B, in) || !bytes.Equal(arena[:pre], bytes.Repeat([]byte{0xC5}, pre)) || !bytes.Equal(arena[pre+len(in):], bytes.Repeat([]byte{0xC5}, post)) {
 		c.Violate("C10|input-modified|"+d.name, "%s changed the buffer it was decoded from (or the bytes around it): %x -> %x", d.name, in, B)
 		return
 	}
